@@ -6,17 +6,11 @@ import TaRs.Lemmas.Core.Minimum
 import TaRs.Gen.Minimum
 import TaRs.Lemmas.RsLemmas
 import TaRs.Lemmas.Total.Minimum
+import TaRs.Lemmas.Bar.Minimum
 namespace TaRs.Gen.Minimum
 open TaRs TaRs.Rs
 
 variable {F : Type} [Scalar F]
-
-/-- wiring of the bar path: WHICH field of the bar `next(&bar)` reads (a value-level fact, hence
-    here and not among the value-agnostic totality lemmas) -/
-theorem nextBar_eq (s : Minimum F) (b : Bar F) : s.nextBar b = s.next b.low := by
-  unfold nextBar
-  try simp only [gen_helper]
-  cases s.next b.low <;> rfl
 
 /-- `find_min_index` only looks at the buffer: first index holding a value `<` every earlier
     candidate (and `< +∞`), `0` when there is none -/
